@@ -55,6 +55,7 @@ struct World {
     std::vector<std::string> snap;
     size_t cap = 0;
     bool full = false;
+    bool broken = false; ///< a value reported a length beyond maxSize: later calls of this history are not executed
 };
 
 // ---- size-limit scenarios: byte strings made of long runs, reported run-length encoded (exact contents, compactly) ----
@@ -89,10 +90,12 @@ int main() {
             w.snap.assign(k, std::string());
             w.cap = strtoul(t[2].c_str(), nullptr, 10);
             w.full = t[3] == "1";
+            w.broken = false;
             std::cout << "{\"reset\":" << k << "}" << std::endl;
             continue;
         }
         if (t.size() != 9) { std::cout << "{\"bad\":\"" << U::Esc(line.substr(0, 80)) << "\"}" << std::endl; continue; }
+        if (w.broken) { std::cout << "{\"skip\":true}" << std::endl; continue; }
         const std::string &a = t[0];
         const bool rle = a[0] == 'z'; // size-limit operations report run-length encoded contents
         const size_t K = w.v.size();
@@ -192,10 +195,12 @@ int main() {
             if (rle) {
                 out << (first ? "" : ",") << "{\"i\":" << (k + 1) << ",\"p\":" << Rle(w.v[k]) << "}";
                 first = false;
+                if (w.v[k].length() > SBuf::maxSize) w.broken = true;
                 continue;
             }
             std::string now;
             const bool readable = Read(w.v[k], now);
+            if (!readable) w.broken = true;
             if (readable && !w.full && now == w.snap[k] && now.size() > FullLen)
                 continue; // unchanged long value: not listed
             out << (first ? "" : ",") << "{\"i\":" << (k + 1) << ",\"p\":" << (readable ? Proj(now) : std::string("{\"corrupt\":true}")) << "}";
